@@ -852,6 +852,10 @@ RANGE_LOOP = '''    ranges = []
             if begin < last_end or last_end < 0:
                 return None
             if end_str:
+                if end_str.startswith("-"):
+                    # _plain_int accepts a sign, a position does not have one
+                    return None
+
                 try:
                     end = _plain_int(end_str) + 1
                 except ValueError:
@@ -901,6 +905,8 @@ def _iter_range_specs(rng: str) -> t.Iterator[tuple[int, int | None]]:
             if {order} or last_end < 0:
                 raise ValueError(item)
             if end_str:
+                if end_str.startswith("-"):
+                    raise ValueError(item)
                 end = {stop}
 
                 if begin >= end:
@@ -1128,4 +1134,102 @@ MUTANTS += [
     {"name": "shape:range-writer-starmap-lambda-no-offset", "expect": "R6.4", "edits": _range_starmap("end")},
     {"name": "shape:etags-writer-chain-weak-without-slash", "expect": "R6.5", "edits": _etags_chain("f'W\"{x}\"'")},
     {"name": "shape:headerset-writer-map-lambda-unquoted", "expect": "R6.5", "edits": [(S, HS_TO, 'return ", ".join(map(lambda item: str(item), self._headers))')]},
+]
+
+# ---- round 4: quoting discipline (R6.9): a text written between literal double quotes is the escaped value --------------
+WWW_DIGEST = (
+    "                if key in {\"realm\", \"domain\", \"nonce\", \"opaque\", \"qop\"}:\n"
+    "                    value = quote_header_value(value, allow_token=False)\n"
+    "                else:\n"
+    "                    value = quote_header_value(value)\n\n"
+    "                items.append(f\"{key}={value}\")\n"
+)
+_WWW_ESC = "value.replace(\"\\\\\", \"\\\\\\\\\").replace('\"', '\\\\\"')"
+DUMP_DICT_ITEM = "                items.append(f\"{key}={quote_header_value(value)}\")\n"
+HS_TO_HEADER = "        return \", \".join(map(http.quote_header_value, self._headers))\n"
+
+MUTANTS += [
+    {"name": "discipline:digest-always-quoted-keys-raw-fstring", "expect": "R6.9", "edits": [(A, WWW_DIGEST,
+        "                if key in {\"realm\", \"domain\", \"nonce\", \"opaque\", \"qop\"}:\n"
+        "                    items.append(f'{key}=\"{value}\"')\n"
+        "                else:\n"
+        "                    items.append(f\"{key}={quote_header_value(value)}\")\n")]},
+    {"name": "discipline:digest-quotes-by-concatenation-only-quote-escaped", "expect": "R6.9", "edits": [(A, WWW_DIGEST,
+        "                if key in {\"realm\", \"domain\", \"nonce\", \"opaque\", \"qop\"}:\n"
+        "                    value = '\"' + value.replace('\"', '\\\\\"') + '\"'\n"
+        "                else:\n"
+        "                    value = quote_header_value(value)\n\n"
+        "                items.append(f\"{key}={value}\")\n")]},
+    {"name": "discipline:dump-header-dict-values-percent-format", "expect": "R6.9", "edits": [(H, DUMP_DICT_ITEM,
+        "                items.append('%s=\"%s\"' % (key, value) if \" \" in str(value) else f\"{key}={quote_header_value(value)}\")\n")]},
+    {"name": "discipline:headerset-items-wrapped-raw", "expect": "R6.9", "edits": [(S, HS_TO_HEADER,
+        "        return \", \".join('\"{}\"'.format(x) if \",\" in x else http.quote_header_value(x) for x in self._headers)\n")]},
+    {"name": "discipline:quote-escapes-in-wrong-order", "expect": "R6.9", "edits": [(H, "    value_str = value_str.replace(\"\\\\\", \"\\\\\\\\\").replace('\"', '\\\\\"')\n", "    value_str = value_str.replace('\"', '\\\\\"').replace(\"\\\\\", \"\\\\\\\\\")\n")]},
+]
+TWINS += [
+    {"name": "discipline:digest-always-quoted-keys-escaped-inline", "edits": [(A, WWW_DIGEST,
+        "                if key in {\"realm\", \"domain\", \"nonce\", \"opaque\", \"qop\"}:\n"
+        "                    escaped = str(value).replace(\"\\\\\", \"\\\\\\\\\").replace('\"', '\\\\\"')\n"
+        "                    items.append(f'{key}=\"{escaped}\"')\n"
+        "                else:\n"
+        "                    items.append(f\"{key}={quote_header_value(value)}\")\n")]},
+    {"name": "discipline:digest-quoting-through-private-helper", "edits": [(A, WWW_DIGEST,
+        "                if key in {\"realm\", \"domain\", \"nonce\", \"opaque\", \"qop\"}:\n"
+        "                    value = _quoted_string(value)\n"
+        "                else:\n"
+        "                    value = quote_header_value(value)\n\n"
+        "                items.append(f\"{key}={value}\")\n"),
+        (A, "class Authorization:\n", "def _quoted_string(value: str) -> str:\n    value = str(value).replace(\"\\\\\", \"\\\\\\\\\")\n    return '\"' + value.replace('\"', '\\\\\"') + '\"'\n\n\nclass Authorization:\n")]},
+    {"name": "discipline:digest-flag-for-always-quoted-keys", "edits": [(A, WWW_DIGEST,
+        "                always_quoted = key in {\"realm\", \"domain\", \"nonce\", \"opaque\", \"qop\"}\n"
+        "                items.append(f\"{key}={quote_header_value(value, allow_token=not always_quoted)}\")\n")]},
+    {"name": "discipline:headerset-items-by-comprehension", "edits": [(S, HS_TO_HEADER, "        return \", \".join([http.quote_header_value(x) for x in self._headers])\n")]},
+    {"name": "discipline:quote-wraps-by-concatenation", "edits": [(H, "    return f'\"{value_str}\"'\n", "    return '\"' + value_str + '\"'\n")]},
+]
+
+# ---- round 4: typed single values (R6.10): HTTP dates, ages, If-Range - whole-function laws on finite families ----------
+IFR_EMPTY = "    if not value:\n        return ds.IfRange()\n"
+IFR_TAIL = "    # drop weakness information\n    return ds.IfRange(unquote_etag(value)[0])\n"
+IFR_WRITE = (
+    "        if self.date is not None:\n            return http.http_date(self.date)\n"
+    "        if self.etag is not None:\n            return http.quote_etag(self.etag)\n        return \"\"\n"
+)
+PD_TAIL = "    if dt.tzinfo is None:\n        return dt.replace(tzinfo=timezone.utc)\n\n    return dt\n"
+
+MUTANTS += [
+    {"name": "typed:if-range-tag-guessed-from-first-character", "expect": "R6.10", "edits": [(H, IFR_EMPTY, IFR_EMPTY + "    if value.lstrip()[:1] in {'\"', \"W\", \"w\"}:\n        return ds.IfRange(unquote_etag(value)[0])\n")]},
+    {"name": "typed:if-range-date-only-for-values-with-a-digit-first", "expect": "R6.10", "edits": [(H, IFR_EMPTY, IFR_EMPTY + "    looks_like_date = value.strip()[:1].isdigit() or value.strip()[:3] in (\"Mon\", \"Tue\", \"Thu\", \"Fri\", \"Sat\", \"Sun\")\n    if not looks_like_date:\n        return ds.IfRange(unquote_etag(value)[0])\n")]},
+    {"name": "typed:if-range-date-written-as-isoformat", "expect": "R6.10", "edits": [(R, "            return http.http_date(self.date)\n", "            return self.date.isoformat()\n")]},
+    {"name": "typed:if-range-tag-written-bare", "expect": "R6.10", "edits": [(R, "            return http.quote_etag(self.etag)\n", "            return self.etag\n")]},
+    {"name": "typed:if-range-weak-marker-stripped-by-hand", "expect": "R6.10", "edits": [(H, IFR_TAIL, "    return ds.IfRange(value.strip().strip('\"'))\n")]},
+    {"name": "typed:http-date-relabels-aware-values", "expect": "R6.10", "edits": [(H, "            timestamp = _dt_as_utc(timestamp)\n", "            timestamp = timestamp.replace(tzinfo=timezone.utc)\n")]},
+    {"name": "typed:http-date-drops-seconds", "expect": "R6.10", "edits": [(H, "        return email.utils.format_datetime(timestamp, usegmt=True)\n", "        return email.utils.format_datetime(timestamp.replace(second=0), usegmt=True)\n")]},
+    {"name": "typed:parse-date-naive-result", "expect": "R6.10", "edits": [(H, PD_TAIL, "    return dt.replace(tzinfo=None)\n")]},
+    {"name": "typed:dump-age-drops-days", "expect": "R6.10", "edits": [(H, "        age = int(age.total_seconds())\n", "        age = age.seconds\n")]},
+    {"name": "typed:parse-age-rejects-zero", "expect": "R6.10", "edits": [(H, "    if seconds < 0:\n        return None\n", "    if seconds <= 0:\n        return None\n")]},
+    {"name": "typed:parse-age-minutes", "expect": "R6.10", "edits": [(H, "        return timedelta(seconds=seconds)\n", "        return timedelta(minutes=seconds)\n")]},
+]
+TWINS += [
+    {"name": "typed:if-range-writer-conditional-expression", "edits": [(R, IFR_WRITE, "        if self.date is not None:\n            return http.http_date(self.date)\n        return http.quote_etag(self.etag) if self.etag is not None else \"\"\n")]},
+    {"name": "typed:if-range-writer-etag-branch-first", "edits": [(R, IFR_WRITE, "        if self.date is None and self.etag is not None:\n            return http.quote_etag(self.etag)\n        if self.date is None:\n            return \"\"\n        return http.http_date(self.date)\n")]},
+    {"name": "typed:if-range-reader-unpacks-tag", "edits": [(H, IFR_TAIL, "    etag, _weak = unquote_etag(value)\n    return ds.IfRange(etag)\n")]},
+    {"name": "typed:parse-date-conditional-expression", "edits": [(H, PD_TAIL, "    return dt.replace(tzinfo=timezone.utc) if dt.tzinfo is None else dt\n")]},
+    {"name": "typed:http-date-through-local", "edits": [(H, "        return email.utils.format_datetime(timestamp, usegmt=True)\n", "        text = email.utils.format_datetime(timestamp, usegmt=True)\n        return text\n")]},
+    {"name": "typed:dump-age-floor-division", "edits": [(H, "        age = int(age.total_seconds())\n", "        age = age // timedelta(seconds=1)\n")]},
+    {"name": "typed:parse-age-positional-timedelta", "edits": [(H, "        return timedelta(seconds=seconds)\n", "        return timedelta(0, seconds)\n")]},
+]
+
+# ---- the fix df062d8 (a quoted entity tag is not tried as a date) reverted / weakened ----
+IFR_FIX = (
+    "    if not value.lstrip().startswith(('\"', 'W/\"', 'w/\"')):\n"
+    "        date = parse_date(value)\n        if date is not None:\n            return ds.IfRange(date=date)\n"
+)
+MUTANTS += [
+    {"name": "typed:if-range-quoted-tag-fix-reverted", "expect": "R6.10", "edits": [(H, IFR_FIX, "    date = parse_date(value)\n    if date is not None:\n        return ds.IfRange(date=date)\n")]},
+    {"name": "typed:if-range-tag-test-sees-only-first-character", "expect": "R6.10", "edits": [(H, "    if not value.lstrip().startswith(('\"', 'W/\"', 'w/\"')):\n", "    if value.lstrip()[:1] not in {'\"', \"W\", \"w\"}:\n")]},
+    {"name": "typed:if-range-tag-test-forgets-weak-marker", "expect": "R6.10", "edits": [(H, "    if not value.lstrip().startswith(('\"', 'W/\"', 'w/\"')):\n", "    if not value.lstrip().startswith(('\"', 'W')):\n")]},
+]
+TWINS += [
+    {"name": "typed:if-range-tag-test-as-flag", "edits": [(H, "    if not value.lstrip().startswith(('\"', 'W/\"', 'w/\"')):\n", "    is_tag = value.lstrip().startswith(('\"', 'W/\"', 'w/\"'))\n    if not is_tag:\n")]},
+    {"name": "typed:if-range-tag-returned-first", "edits": [(H, IFR_FIX, "    if value.lstrip().startswith(('\"', 'W/\"', 'w/\"')):\n        return ds.IfRange(unquote_etag(value)[0])\n    date = parse_date(value)\n    if date is not None:\n        return ds.IfRange(date=date)\n")]},
 ]
